@@ -1991,7 +1991,10 @@ class UnitQuaternion(Quaternion):
 
         :seealso: :func:`~spatialmath.quaternion.AngVec`, :func:`~spatialmath.quaternion.UnitQuaternion.log`, :func:`~angvec2r`
         """
-        return base.tr2angvec(self.R, unit=unit)
+        if len(self) == 1:
+            return base.tr2angvec(self.R, unit=unit)
+        else:
+            return [base.tr2angvec(base.q2r(q), unit=unit) for q in self.data]
 
     # def log(self):
     #     r"""
